@@ -6,7 +6,9 @@ package c10
 
 import (
 	"bytes"
+
 	"fmt"
+	"github.com/ethereum/go-ethereum/common"
 	"math/rand"
 	"sort"
 	"strings"
@@ -225,6 +227,7 @@ func runTree(e *env, cid string) {
 		}
 		if rng.Intn(4) == 0 {
 			c.sweep(3)
+			c.expiryEdge()
 		}
 	}
 	// final "never wedged" sweep over every stored header, plus a last round of mutants
@@ -263,7 +266,76 @@ func (c *tcase) sweep(limit int) {
 	for _, p := range st {
 		h, _ := genChild(c.rng, p, c.opts)
 		c.attempt(h, c.tmpNode(p, h), false, "probe-child")
+		if c.rng.Intn(4) == 0 {
+			c.rootLengthProbe(p)
+		}
 	}
+}
+
+// rootLengthProbe: a valid child whose state-root FIELD is not 32 bytes long (an extra prefix, or a byte missing). The
+// block hash commits to 32 bytes (the field cropped / padded); whether such a header is taken is not pinned by the
+// statement, but IF it is, the consensus state kept for its height must be the state root its hash commits to.
+func (c *tcase) rootLengthProbe(p *node) {
+	r := c.e.r
+	ck := c.e.n.App.XIBCKeeper.ClientKeeper
+	h, _ := genChild(c.rng, p, c.opts)
+	shape := "prefixed-with-32-bytes"
+	if c.rng.Intn(3) == 0 {
+		shape = "first-byte-missing"
+		h.Root = append([]byte{}, h.Root[1:]...)
+	} else {
+		h.Root = append(rbytes(c.rng, 32), h.Root...)
+	}
+	committed := common.BytesToHash(h.Root)
+	uctx, _ := c.ctx.CacheContext()
+	uctx = uctx.WithBlockTime(time.Unix(int64(c.blockTimeFor(h.Time)), 0)).WithEventManager(sdk.NewEventManager())
+	sub := cloneHdr(h)
+	err, panicked := core.Catch(func() error { return ck.UpdateClient(uctx, clientName, &sub) })
+	r.Eval(fmt.Sprintf("root-length|%s|%s|%s", shape, p.id, c.m.digest()), true)
+	switch {
+	case panicked:
+		c.viol("panic/update-client/root-length/"+shape, map[string]interface{}{"panic": err.Error()})
+	case err != nil:
+		r.Count("root_length_probe/"+shape+"/refused", 1)
+	default:
+		r.Count("root_length_probe/"+shape+"/accepted", 1)
+		cons, found := ck.GetClientConsensusState(uctx, clientName, h.Height)
+		if !found || !bytes.Equal(cons.GetRoot(), committed.Bytes()) {
+			got := []byte(nil)
+			if found {
+				got = cons.GetRoot()
+			}
+			c.viol("consensus-root/not-the-state-root-the-accepted-header-commits-to/root-field-"+shape, map[string]interface{}{"parent": p.id, "root_field": core.Hex(h.Root), "hash_commits_to": committed.Hex(), "stored": core.Hex(got)})
+		}
+	}
+}
+
+// expiryEdge (prune mode): the update that arrives right after the OLDEST stored header has expired - and so is the one
+// that prunes it - carries a valid child of exactly that header. Nothing had been pruned before, the head is alive.
+func (c *tcase) expiryEdge() {
+	if c.mode != "prune" {
+		return
+	}
+	st := c.m.storedSorted()
+	if len(st) < 2 {
+		return
+	}
+	old := st[0]
+	for _, n := range st {
+		if n.height() < old.height() {
+			old = n
+		}
+	}
+	bt := old.hdr.Time + c.tp + 1
+	if old == c.m.head || bt < c.clock || c.m.head.hdr.Time+c.tp < bt {
+		return
+	}
+	h, _ := genChild(c.rng, old, c.opts)
+	if h.Time > bt+10 {
+		return
+	}
+	c.e.r.Count("prune_mode/child-of-the-oldest-header-at-the-moment-it-expires", 1)
+	c.attemptAt(h, c.tmpNode(old, h), false, "probe-child-at-parents-expiry", bt)
 }
 
 func (c *tcase) tmpNode(p *node, h ethtypes.Header) *node {
@@ -325,7 +397,23 @@ func (c *tcase) attemptAt(h ethtypes.Header, nd *node, commit bool, what string,
 		case c.m.head.hdr.Time+c.tp < bt:
 			j.v, j.rule = either, "client-expired"
 		case j.parent != c.m.head:
-			j.v, j.rule = either, "prune-mode/parent-may-have-been-pruned"
+			// pruning removes expired headers one per update; once history is gone a branch below it cannot be followed any
+			// more (not pinned by the statement). As long as NOTHING has been pruned - every header the client ever accepted is
+			// still in its store - the tree is complete and a valid child of any stored header must be accepted, also when the
+			// update that carries it is the one that prunes
+			st := ck.ClientStore(c.ctx, clientName)
+			complete := true
+			for _, nd := range c.m.stored {
+				if !st.Has(ethtypes.EthHeaderIndexKey(nd.hdr.Hash(), nd.hdr.Height.RevisionHeight)) {
+					complete = false
+					break
+				}
+			}
+			if complete {
+				r.Count("prune_mode/child-of-a-non-head-header-judged-while-nothing-was-pruned-yet", 1)
+			} else {
+				j.v, j.rule = either, "prune-mode/history-has-been-pruned"
+			}
 		}
 	}
 	kindLabel := what
